@@ -597,6 +597,174 @@ def band_rules(run, db):
                   % ((label, lo_, hi_, wrong[0][0], 'set' if wrong[0][2] else 'clear', 'contains' if wrong[0][1] else 'does not contain', len(wrong)) if wrong else (label, lo_, hi_, '', '', '', 0)), fk.loc(inner_loops[0]))
 
 
+def corner_rules(run, db):
+    """Keystone windows: the local window of a segment is the bounding box of a list of polar points.  The list must hold the two
+    inner corners, the two outer corners and the apex of the outer arc (outer radius, middle azimuth): a sector is convex along its
+    outer arc, so without the apex the arc's bulge falls outside the window and the recorded mask is truncated.  Decided on the list
+    of (radius, azimuth) pairs as built (tuple literals, names of tuples, zip of tuples with + and * int), not on how it is spelt."""
+    fk = db.func(S + '_composite_keystone_aperture')
+
+    def refuse(msg):
+        raise AnalysisError('keystone aperture, corner points: ' + msg)
+
+    rings = [st for st in fk.node.body if isinstance(st, ast.For)]
+    sites = []
+    for ring in rings:
+        for seg in [n for n in walk_no_nested(ring) if isinstance(n, ast.For) and n is not ring]:
+            for st in seg.body:
+                if (isinstance(st, ast.Assign) and isinstance(st.value, ast.Call) and ast.unparse(st.value.func).endswith('polar_to_cart')
+                        and isinstance(st.targets[0], ast.Tuple) and len(st.targets[0].elts) == 2 and all(isinstance(e, ast.Name) for e in st.targets[0].elts)
+                        and len(st.value.args) == 2 and not st.value.keywords):
+                    sites.append((ring, seg, st))
+
+    # the two Cartesian lists are what the window is the bounding box of: both reach min(...) and max(...) (directly, or as the
+    # argument of a module-level helper that takes min and max of its parameter) before they are rebound
+    def extremes(seg, pos, name):
+        got = set()
+        for later in seg.body[pos + 1:]:
+            for c_ in ast.walk(later):
+                if isinstance(c_, ast.Call) and len(c_.args) == 1 and isinstance(c_.args[0], ast.Name) and c_.args[0].id == name:
+                    fn = ast.unparse(c_.func)
+                    if fn in ('min', 'max', 'np.min', 'np.max', 'np.amin', 'np.amax'):
+                        got.add(fn[-3:])
+                    else:
+                        try:
+                            h = db.func(fk.module.name + '.' + fn) if hasattr(fk.module, 'name') else None
+                        except Exception:
+                            h = None
+                        if h is not None and len(h.node.args.args) == 1:
+                            prm = h.node.args.args[0].arg
+                            for d_ in ast.walk(h.node):
+                                if isinstance(d_, ast.Call) and ast.unparse(d_.func) in ('min', 'max') and len(d_.args) == 1 and ast.unparse(d_.args[0]) == prm:
+                                    got.add(ast.unparse(d_.func))
+            if any(isinstance(t_, ast.Name) and t_.id == name and isinstance(t_.ctx, ast.Store) for t_ in ast.walk(later)):
+                break
+        return got
+    sites = [(ring, seg, st) for ring, seg, st in sites
+             if all(extremes(seg, seg.body.index(st), e.id) == {'min', 'max'} for e in st.targets[0].elts)]
+    if len(sites) != 1:
+        refuse('expected one conversion x, y = polar_to_cart(radii, azimuths) in the per-segment loop whose results are read through min and max (the bounding box of the window); found %d' % len(sites))
+    ring, seg, st = sites[0]
+    pos = seg.body.index(st)
+
+    # single assignments in the per-segment loop, before the conversion
+    def binding(name, before):
+        vals = [b.value for b in seg.body[:before] if isinstance(b, ast.Assign) and len(b.targets) == 1 and isinstance(b.targets[0], ast.Name) and b.targets[0].id == name]
+        return vals[-1] if vals else None
+
+    def seq(e, depth=0):
+        """a python / numpy sequence expression as a list of element expressions"""
+        if depth > 24:
+            refuse('sequence expression nested too deep')
+        if isinstance(e, (ast.List, ast.Tuple)):
+            if any(isinstance(x_, ast.Starred) for x_ in e.elts):
+                refuse('starred element in %s' % ast.unparse(e))
+            return list(e.elts)
+        if isinstance(e, ast.Name):
+            b = binding(e.id, pos)
+            if b is None:
+                refuse('%s is not bound by a plain assignment in the per-segment loop' % e.id)
+            return seq(b, depth + 1)
+        if isinstance(e, ast.Call):
+            fn = ast.unparse(e.func)
+            if fn in ('np.array', 'np.asarray', 'list', 'tuple') and len(e.args) == 1 and not e.keywords:
+                return seq(e.args[0], depth + 1)
+            if fn == 'zip' and e.args and not e.keywords:
+                cols = [seq(a_, depth + 1) for a_ in e.args]
+                n = min(len(c_) for c_ in cols)          # zip stops at the shortest
+                return [ast.Tuple(elts=[c_[i] for c_ in cols], ctx=ast.Load()) for i in range(n)]
+        if isinstance(e, ast.BinOp) and isinstance(e.op, ast.Add):
+            return seq(e.left, depth + 1) + seq(e.right, depth + 1)
+        if isinstance(e, ast.BinOp) and isinstance(e.op, ast.Mult):
+            for a_, b_ in ((e.left, e.right), (e.right, e.left)):
+                if isinstance(b_, ast.Constant) and isinstance(b_.value, int) and not isinstance(b_.value, bool):
+                    return seq(a_, depth + 1) * b_.value
+        refuse('cannot read %s as a list of points' % ast.unparse(e)[:120])
+
+    def atom(e):
+        if isinstance(e, ast.Name):
+            b = binding(e.id, pos)
+            # a name of a tuple (c1 = (inner_radius, lo)) is the tuple; a name of a number is itself
+            if isinstance(b, (ast.Tuple, ast.List)):
+                return e
+            return e.id
+        refuse('corner coordinate %s is not a plain name' % ast.unparse(e)[:80])
+
+    def column(e):
+        """arr[:, k] of an array of pairs -> (pairs expression, k)"""
+        if (isinstance(e, ast.Subscript) and isinstance(e.slice, ast.Tuple) and len(e.slice.elts) == 2 and isinstance(e.slice.elts[0], ast.Slice)
+                and e.slice.elts[0].lower is None and e.slice.elts[0].upper is None and e.slice.elts[0].step is None
+                and isinstance(e.slice.elts[1], ast.Constant) and e.slice.elts[1].value in (0, 1)):
+            return e.value, e.slice.elts[1].value
+        return None
+
+    def resolve(e):
+        if isinstance(e, ast.Name):
+            b = binding(e.id, pos)
+            if b is not None and column(b) is not None:
+                return b
+        return e
+    ra, ta = resolve(st.value.args[0]), resolve(st.value.args[1])
+    ca, cb = column(ra), column(ta)
+    if ca is not None and cb is not None:
+        if ast.unparse(ca[0]) != ast.unparse(cb[0]) or (ca[1], cb[1]) != (0, 1):
+            refuse('radii and azimuths are not columns 0 and 1 of one array of points')
+        pts = []
+        for el in seq(ca[0]):
+            if isinstance(el, ast.Name):
+                b = binding(el.id, pos)
+                if not isinstance(b, (ast.Tuple, ast.List)):
+                    refuse('point %s is not bound to a pair' % el.id)
+                el = b
+            if not isinstance(el, (ast.Tuple, ast.List)) or len(el.elts) != 2:
+                refuse('point %s is not a pair' % ast.unparse(el)[:80])
+            pts.append((atom(el.elts[0]), atom(el.elts[1])))
+    elif ca is None and cb is None:
+        rs, ts = seq(ra), seq(ta)
+        if len(rs) != len(ts):
+            refuse('the list of radii and the list of azimuths differ in length (%d, %d)' % (len(rs), len(ts)))
+        pts = [(atom(a_), atom(b_)) for a_, b_ in zip(rs, ts)]
+    else:
+        refuse('radii and azimuths are not given in the same form')
+    if any(not isinstance(a_, str) or not isinstance(b_, str) for a_, b_ in pts):
+        refuse('a corner coordinate is itself a sequence')
+    P = set(pts)
+    radii = sorted({a_ for a_, _ in P})
+    angles = sorted({b_ for _, b_ in P})
+    if len(radii) != 2:
+        refuse('the corner points do not lie on two radii (%s)' % radii)
+    # which radius is the outer one: the one computed, later in the ring pass, as the other plus the radial width
+    def ring_assign(name):
+        out = [(i, b.value) for i, b in enumerate(ring.body) if isinstance(b, ast.Assign) and len(b.targets) == 1 and isinstance(b.targets[0], ast.Name) and b.targets[0].id == name]
+        return out[-1] if len(out) == 1 else None
+    A, B = ring_assign(radii[0]), ring_assign(radii[1])
+    if A is None or B is None:
+        refuse('the two radii %s are not each assigned once in the pass over a ring' % radii)
+    (later_i, later_v), later_n, earlier_n = (B, radii[1], radii[0]) if B[0] > A[0] else (A, radii[0], radii[1])
+    if not (isinstance(later_v, ast.BinOp) and isinstance(later_v.op, ast.Add) and earlier_n in {n.id for n in ast.walk(later_v) if isinstance(n, ast.Name)}
+            and not any(isinstance(n, (ast.Sub, ast.USub)) for n in ast.walk(later_v))):
+        refuse('cannot tell the outer radius from the inner one (%s is not %s plus a width)' % (later_n, earlier_n))
+    OUTER, INNER = later_n, earlier_n
+    # which azimuth is the middle one: the name that the segment pass computes from an azimuth of the list (whether or not it is in the list)
+    mids = []
+    for b in seg.body[:pos]:
+        if isinstance(b, ast.Assign) and len(b.targets) == 1 and isinstance(b.targets[0], ast.Name) and isinstance(b.value, ast.BinOp) and not any(isinstance(n, (ast.Tuple, ast.List, ast.Call)) for n in ast.walk(b.value)):
+            a_ = b.targets[0].id
+            if {n.id for n in ast.walk(b.value) if isinstance(n, ast.Name)} & (set(angles) - {a_}) and a_ not in mids:
+                mids.append(a_)
+    angles = sorted(set(angles) | set(mids))
+    if len(mids) != 1 or len(angles) != 3:
+        refuse('cannot tell the two edge azimuths and the middle azimuth apart (azimuths %s, computed from another: %s)' % (angles, mids))
+    MID = mids[0]
+    edges = [a_ for a_ in angles if a_ != MID]
+    want = {(OUTER, MID)} | {(r_, a_) for r_ in (INNER, OUTER) for a_ in edges}
+    missing = sorted(want - P)
+    run.check(not missing, 'C18.corners', fk.qual, 'window corner points',
+              'the window of a keystone segment is the bounding box of its four corners and the apex of its outer arc: %s' % sorted(P),
+              'the window of a keystone segment is the bounding box of %s only: the point%s %s %s missing, so the part of the annular sector beyond the box of the remaining points (the bulge of the outer arc) lies outside the window and is cut from the segment mask and from the aperture'
+              % (sorted(P), '' if len(missing) == 1 else 's', ', '.join('(%s, %s)' % m_ for m_ in missing), 'is' if len(missing) == 1 else 'are'), fk.loc(st))
+
+
 def mask_memo_rules(run, db):
     """Segment masks are rasterised per segment; if a builder memoises them, the key must determine the whole local grid."""
     from .purity import local_memo_completeness
@@ -1386,6 +1554,9 @@ def _rest_of_check(run, db, fh, fk, fc, unp, hrole, krole):
     run.rule('C18.band', 'keystone ring bands are half-open in the radius (no sample on a shared ring radius belongs to two rings)')
     run.rule('C18.sector', 'keystone sectors: the angular mask of a segment holds exactly the azimuths of its sector, for a representative of every ordering of lo, hi, +pi and the branch cut')
     run.group(band_rules, run, db)
+    run.rule('C18.corners', 'keystone windows: the bounding box that is cut out for a segment is taken over its four corners and the apex of its outer arc')
+    run.group(corner_rules, run, db)
+    run.require_instances('C18.corners', 1)
     run.require_instances('C18.sector', 9)
     run.require_instances('C18.ids', 4)
     run.rule('C18.boundary', 'geometric primitives (circle, annulus, offset circle, rectangle, rotated ellipse, spider, regular polygon vertices) equal their analytic inequalities as formulas')
